@@ -286,6 +286,7 @@ static int replay(const char *key) {
 }
 
 static int worker(int argc, char **argv) {
+    vc_dirty_bytes = 2048;   /* leaf routines with small frames; millions of cases */
     if (vc_replay_key) return replay(vc_replay_key);
     const char *m = argv[1];
     int thorough = 1, X = (argc > 2 && !strcmp(argv[argc - 1], "thorough")) ? 1 : 0;  /* thorough = one symbol longer */
